@@ -49,33 +49,28 @@ def handleTT (ins outs : List J) : Verdict :=
              if alt == 0 then closeR gp (2 * (1 - gcdf)) (1 / 1000000000000) 0
              else if alt < 0 then closeR gp gcdf (1 / 1000000000000) 0
              else closeR gp (1 - gcdf) (1 / 1000000000000) 0
-           -- reference P at integer DoF: closed-form t CDF at the exact T
+           -- reference P: the proved general t CDF (series through the incomplete beta function) at the exact T;
+           -- at integer DoF the textbook closed form must agree with it (cross-check only)
+           let isInt := st.dof == ((st.dof.floor : Int) : Rat) && st.dof ≥ 1
            let pRef : List (String × Bool × String) :=
-             if st.dof == ((st.dof.floor : Int) : Rat) && st.dof ≥ 1 && st.dof ≤ 400 then
-               let nu := st.dof.floor.toNat
-               let tAbs := I.sqrt (I.ofRat t2)
-               let tI : I := if st.num ≥ 0 then tAbs else I.neg tAbs
-               let tI : I := ⟨tI.lo - rt * ratAbs tI.lo - rt, tI.hi + rt * ratAbs tI.hi + rt⟩
-               let c := Special.tCDFI nu tI
-               let cAbs := Special.tCDFI nu ⟨ratMax 0 (tAbs.lo * (1 - rt) - rt), tAbs.hi * (1 + rt) + rt⟩
-               let want : I :=
-                 if alt == 0 then I.scale 2 (I.sub (I.ofRat 1) cAbs)
-                 else if alt < 0 then c else I.sub (I.ofRat 1) c
-               [("ttest-P", decide (want.lo - 4 / 1000000000 ≤ gp ∧ gp ≤ want.hi + 4 / 1000000000), s!"go P={ratStr gp} reference [{ratStr want.lo},{ratStr want.hi}] dof={nu}")]
-             else if st.dof > 0 && st.dof ≤ 10000 then
-               -- non-integer DoF (Welch): series reference through the incomplete beta function
+             if st.dof > 0 && st.dof ≤ 10000 then
                let tAbs := I.sqrt (I.ofRat t2)
                let lo := ratMax 0 (tAbs.lo * (1 - rt) - rt); let hi := tAbs.hi * (1 + rt) + rt
                if !Special.lgammaOK [st.dof / 2, 1 / 2, st.dof / 2 + 1 / 2] then [("reference-consistency", false, "the proved log Gamma enclosure did not terminate")] else
                match Special.tCDFgen st.dof lo, Special.tCDFgen st.dof hi with
                | some cl, some ch =>
-                 let cAbs : I := ⟨cl.lo, ch.hi⟩              -- CDF(|T|)
-                 let c : I := if st.num ≥ 0 then cAbs else I.sub (I.ofRat 1) cAbs
-                 let want : I :=
+                 let mk (cAbs : I) : I :=
+                   let c : I := if st.num ≥ 0 then cAbs else I.sub (I.ofRat 1) cAbs
                    if alt == 0 then I.scale 2 (I.sub (I.ofRat 1) cAbs)
                    else if alt < 0 then c else I.sub (I.ofRat 1) c
-                 -- DoF itself carries the forward error of the variances
-                 [("ttest-P", decide (want.lo - 4 / 1000000000 - 64 * rt ≤ gp ∧ gp ≤ want.hi + 4 / 1000000000 + 64 * rt), s!"go P={ratStr gp} series reference [{ratStr want.lo},{ratStr want.hi}] dof={ratStr st.dof}")]
+                 let want := mk ⟨cl.lo, ch.hi⟩               -- CDF(|T|) is monotone in |T|
+                 -- a non-integer DoF itself carries the forward error of the variances
+                 let slack : Rat := 4 / 1000000000 + (if isInt then 0 else 64 * rt)
+                 [("ttest-P", decide (want.lo - slack ≤ gp ∧ gp ≤ want.hi + slack), s!"go P={ratStr gp} reference [{ratStr want.lo},{ratStr want.hi}] dof={ratStr st.dof}")] ++
+                 (if isInt && st.dof ≤ 400 then
+                    let closed := mk (Special.tCDFI st.dof.floor.toNat ⟨lo, hi⟩)
+                    [("reference-consistency", (decide (want.lo ≤ closed.hi + 1 / pow2 60) && decide (closed.lo ≤ want.hi + 1 / pow2 60)), s!"dof={ratStr st.dof}: series [{ratStr want.lo},{ratStr want.hi}] vs closed form [{ratStr closed.lo},{ratStr closed.hi}]")]
+                  else [])
                | _, _ => []
              else []
            verdictOf (tag ++ (if pRef.isEmpty then " wiring-only" else " reference-P"))
@@ -119,12 +114,20 @@ def handleMeanCI (ins outs : List J) : Verdict :=
               -- content: t = w √n / s ; 2 F_{n−1}(t) − 1 = c
               let t := I.div (I.scale w2 (I.sqrt (I.ofRat (n : Rat)))) (I.sqrt (I.ofRat v))
               let t : I := ⟨t.lo * (1 - rt), t.hi * (1 + rt)⟩
-              let content := I.sub (I.scale 2 (Special.tCDFI (n - 1) t)) (I.ofRat 1)
+              -- content from the proved general t CDF (monotone in t); the closed form is a cross-check
+              let nu : Rat := ((n - 1 : Nat) : Rat)
+              let closed := I.sub (I.scale 2 (Special.tCDFI (n - 1) t)) (I.ofRat 1)
+              let content : I := match Special.tCDFgen nu (ratMax 0 t.lo), Special.tCDFgen nu (ratMax 0 t.hi) with
+                | some cl, some ch => I.sub (I.scale 2 ⟨cl.lo, ch.hi⟩) (I.ofRat 1)
+                | _, _ => closed
+              let cons := Special.lgammaOK [nu / 2, 1 / 2, nu / 2 + 1 / 2] &&
+                decide (content.lo ≤ closed.hi + 1 / pow2 60) && decide (closed.lo ≤ content.hi + 1 / pow2 60)
               verdictOf "nt meanci"
                 [("meanci-mean", meanOk, s!"go {ratStr m} model {ratStr mu}"),
                  ("meanci-symmetric", sym, s!"[{ratStr lo},{ratStr hi}] about {ratStr m}"),
                  ("meanci-content", decide (content.lo - 4 / 1000000000 ≤ c ∧ c ≤ content.hi + 4 / 1000000000),
-                   s!"t-content of the interval [{ratStr content.lo},{ratStr content.hi}] vs c={ratStr c}")]
+                   s!"t-content of the interval [{ratStr content.lo},{ratStr content.hi}] vs c={ratStr c}"),
+                 ("reference-consistency", cons, s!"dof={ratStr nu}: series content [{ratStr content.lo},{ratStr content.hi}] vs closed form [{ratStr closed.lo},{ratStr closed.hi}]")]
           | _, _, _ => .fail "meanci-finite" s!"{gm.str} {glo.str} {ghi.str}"
     | _, _, _, _, _ => .badOp "meanci: parse"
   | _, _ => .badOp "meanci: arity"
